@@ -405,6 +405,17 @@ func runC17(c *core.Ctx) {
 		}
 		c.Begin(kind, "New", d.Elem, d.Config)
 		c.Count("c17:pointer-element-cases", 1)
+	case 5:
+		// zero-size elements / values (struct{}): sizes that divide by zero,
+		// elements that all live at one address
+		cfg := drawCfg(r, true)
+		if isKV(kind) {
+			d = NewDyn(kind, IntDom(8), ZDom(), cfg)
+		} else {
+			d = NewDyn(kind, ZDom(), IntDom(4), cfg)
+		}
+		c.Begin(kind, "New", d.Elem, d.Config)
+		c.Count("c17:zero-size-element-cases", 1)
 	case 7:
 		// float elements / values incl. NaN and the infinities
 		cfg := drawCfg(r, true)
